@@ -98,18 +98,10 @@ def run_case(case):
                                   summary={"design": dast.describe(ast), "T": m.T, "returned": returned,
                                            "strategies": case["strategies"], "peer": case["knobs"]["peer"],
                                            "transport": case["knobs"]["transport"], "faults": case.get("faults")})
-        if viol and w.fault_fired and not case.get("_nofault_rerun"):
-            # does the violation need the fault?  re-run fault-free; if it persists it is reported as fault-free
-            c2 = dict(case)
-            c2["faults"] = []
-            c2["_nofault_rerun"] = True
-            r2 = run_case(c2)
-            if r2.get("outcome") == "violation":
-                return r2
         if viol:
             strat, (tail, detail) = viol
             cls = "sat" if strat in ("IterateSATGen", "IterateGen") else "sampler"
-            sig = "C01/%s%s" % (tail, "/after-fault" if w.fault_fired else "")
+            sig = "C01/%s" % tail
             base.update(outcome="violation", signature=sig, detail=detail + " ; design=" + dast.describe(ast))
             base["class"] = cls
             return base
